@@ -10,7 +10,7 @@ use liwe::model::config::MarkdownOptions;
 use liwe::model::Key;
 use std::collections::{BTreeMap, HashMap};
 
-pub const KEY_POOL: &[&str] = &["a", "b", "c", "d/x", "d/y", "d/e/z", "f/x", "n1", "d2/x", "d"];
+pub const KEY_POOL: &[&str] = &["a", "b", "c", "d/x", "d/y", "d/e/z", "f/x", "n1", "d2/x", "d", "v1.2", "v1"];
 
 #[derive(Clone, Debug)]
 pub struct History {
